@@ -154,6 +154,15 @@ class Collector:
     def report(self, sig, detail, case):
         """A monitor saw a violation with root-cause key `sig`. `case` is a JSON-able replay case or a thunk."""
         sig = re.sub(r'\s+', '_', str(sig))
+        if self.config and not self.replay_mode:
+            # a case found under a non-default configuration must be replayed under it
+            inner = case
+
+            def case(inner=inner, cfg=self.config):
+                c = inner() if callable(inner) else inner
+                if isinstance(c, dict) and 'config' not in c:
+                    c = dict(c, config=cfg)
+                return c
         if self.replay_mode:
             self.replay_hits.append({'sig': sig, 'detail': jsonable(detail)})
             return
